@@ -372,6 +372,89 @@ def upgrade_cases():
             for name, su in setups.items() for r in readers for w in writers]
 
 
+def iso_cases():
+    """value isolation on every backend (mode "iso"): answers already returned are re-compared after every later call and at
+    the end; []any arguments are overwritten by the harness after the call (mutin); returned composites are overwritten
+    (mutret); SetList(k2, GetList(k1)) with the very slice returned; iterate-and-remove."""
+    A = lambda k, v: {"op": "append", "k": k, "v": v}
+    GL = lambda k: {"op": "getlist", "k": k}
+    abc = [A("k1", "a"), A("k1", "b"), A("k1", "c")]                      # len 3, cap 4: room for an in-place append
+    sl = lambda k, v, t=0: {"op": "setlist", "k": k, "v": v, "ttl": t}
+    cp = {"op": "copylist", "k": "k2", "f": "k1", "ttl": 0}
+    H = [{"op": "sethash", "k": "h1", "f": "f", "v": "a"}, {"op": "sethash", "k": "h1", "f": "g", "v": "b"}]
+    GA = {"op": "getallhash", "k": "h1"}
+    both = [GL("k1"), GL("k2"), {"op": "exists", "k": "k1"}, {"op": "exists", "k": "k2"}]
+    sc = [
+        # (b) arguments overwritten by the caller after the call returned
+        ("setlist-argument-overwritten", [sl("k1", ["a", "b", "c"]), GL("k1"), A("k1", "d"), GL("k1")], True, False),
+        ("set-list-argument-overwritten", [{"op": "set", "k": "k1", "v": ["a", "b", "c"], "ttl": 0}, GL("k1")], True, False),
+        ("setnx-list-argument-overwritten", [{"op": "setnx", "k": "k1", "v": ["a", "b", "c"], "ttl": 0}, GL("k1")], True, False),
+        ("cas-list-argument-overwritten", [{"op": "cas", "k": "k1", "old": None, "v": ["a", "b"], "ttl": 0}, GL("k1")], True, False),
+        # (b') answers overwritten by the caller
+        ("getlist-answer-overwritten", [sl("k1", ["a", "b", "c"]), GL("k1"), GL("k1"), A("k1", "d"), GL("k1")], False, True),
+        ("getlist-answer-overwritten-after-appends", abc + [GL("k1"), GL("k1")], False, True),
+        ("getallhash-answer-overwritten", H + [GA, GA, {"op": "gethash", "k": "h1", "f": "f"}], False, True),
+        ("get-hash-answer-overwritten", H + [{"op": "get", "k": "h1"}, GA], False, True),
+        ("get-list-answer-overwritten", abc + [{"op": "get", "k": "k1"}, GL("k1")], False, True),
+        # (a) answers kept while the key is written
+        ("getlist-then-remove", abc + [GL("k1"), {"op": "remove", "k": "k1", "v": "a"}, GL("k1"), {"op": "remove", "k": "k1", "v": "c"}, GL("k1")], False, False),
+        ("getlist-then-append", abc + [GL("k1"), A("k1", "d"), A("k1", "e"), GL("k1")], False, False),
+        ("getlist-then-setlist-delete", abc + [GL("k1"), sl("k1", ["z"]), GL("k1"), {"op": "del", "k": "k1"}, GL("k1")], False, False),
+        ("setlist-getlist-then-remove", [sl("k1", ["a", "b", "a", "c"]), GL("k1"), {"op": "remove", "k": "k1", "v": "a"}, GL("k1")], False, False),
+        ("getallhash-then-sethash-delhash", H + [GA, {"op": "sethash", "k": "h1", "f": "x", "v": "y"}, {"op": "delhash", "k": "h1", "f": "f"}, GA], False, False),
+        ("get-hash-then-sethash-delhash", H + [{"op": "get", "k": "h1"}, {"op": "sethash", "k": "h1", "f": "x", "v": "y"},
+                                               {"op": "delhash", "k": "h1", "f": "f"}, GA], False, False),
+        ("get-list-then-remove", abc + [{"op": "get", "k": "k1"}, {"op": "remove", "k": "k1", "v": "b"}, GL("k1")], False, False),
+        ("get-counter-then-incr", [{"op": "incrby", "k": "c1", "n": 5}, {"op": "get", "k": "c1"}, {"op": "incrby", "k": "c1", "n": 1}, {"op": "get", "k": "c1"}], False, False),
+        # (c) copies between keys, then writes to either
+        ("copy-then-remove-from-source", abc + [cp, {"op": "remove", "k": "k1", "v": "a"}] + both, False, False),
+        ("copy-then-remove-from-copy", abc + [cp, {"op": "remove", "k": "k2", "v": "b"}] + both, False, False),
+        ("copy-then-append-to-both", abc + [cp, A("k1", "x"), A("k2", "y")] + both, False, False),
+        ("copy-then-append-to-copy-then-source", abc + [cp, A("k2", "y"), A("k1", "x")] + both, False, False),
+        ("copy-of-setlist-then-remove", [sl("k1", ["a", "b", "c"]), cp, {"op": "remove", "k": "k1", "v": "b"}] + both, False, False),
+        ("copy-then-setlist-source", abc + [cp, sl("k1", []), A("k1", "q")] + both, False, False),
+        ("copy-then-delete-source", abc + [cp, {"op": "del", "k": "k1"}] + both, False, False),
+        # (d) iterate-and-remove
+        ("drain-appended-list", abc + [{"op": "drain", "k": "k1"}, GL("k1"), A("k1", "n"), GL("k1")], False, False),
+        ("drain-setlist-with-duplicates", [sl("k1", ["a", "b", "a", "c", "d"]), {"op": "drain", "k": "k1"}, GL("k1")], False, False),
+        ("drain-copy", abc + [cp, {"op": "drain", "k": "k2"}] + both, False, False),
+    ]
+    out = []
+    for bk in ("mem", "redis", "hybrid"):
+        for name, ops, mutin, mutret in sc:
+            if bk != "mem" and name.startswith("get-"):
+                continue   # Get of a list / hash / counter key is not a shape the typed backends share (Redis: WRONGTYPE)
+            if bk == "redis" and name.split("-")[0] in ("set", "setnx", "cas"):
+                continue   # a list handed to Set / SetNX / CompareAndSwap is a JSON string on Redis, not a list
+            if bk == "hybrid" and "hash" in name:
+                continue   # hybrid.Storage does not implement GetAllHash
+            out.append({"mode": "iso", "backend": bk, "name": name, "ops": ops, "mutin": mutin, "mutret": mutret})
+    return out
+
+
+def expand_iso(ops, obs_for_ops, outs):
+    """copylist / drain as model operations, built from the answers observed at call time; outs may be the end-of-history view"""
+    mops, mouts = [], []
+    for o, a, b in zip(ops, obs_for_ops, outs):
+        if o["op"] == "copylist":
+            mops.append({"op": "getlist", "k": o["f"]})
+            mouts.append(b[1])
+            if len(a) > 2 and a[1][0] == "v":
+                mops.append({"op": "setlist", "k": o["k"], "v": a[1][1], "ttl": o.get("ttl", 0)})
+                mouts.append(b[2])
+        elif o["op"] == "drain":
+            mops.append({"op": "getlist", "k": o["k"]})
+            mouts.append(b[1])
+            if a[1][0] == "v":
+                for x, r in zip(a[1][1], b[2:]):
+                    mops.append({"op": "remove", "k": o["k"], "v": x})
+                    mouts.append(r)
+        else:
+            mops.append(o)
+            mouts.append(b)
+    return mops, mouts
+
+
 def exhaustive_small(rng, depth):
     """all histories of the given length over a reduced one-key alphabet (thorough tier)"""
     k = "k0"
@@ -579,6 +662,7 @@ def run(ctx, only_cases=None):
         n_mem, n_focus, n_redis, n_conc = (4000, 5000, 8000, 3000) if thorough else (400, 600, 900, 300)
         cases += [dict(c, mode="both", scale=1, tol=MARGIN) for c in lifetime_sweep("redis")]
         cases += collection_boundaries()
+        cases += iso_cases()
         cases += [gen_mem(rng) for _ in range(n_mem)]
         cases += [gen_focus(rng) for _ in range(n_focus)]
         if thorough:
@@ -593,7 +677,7 @@ def run(ctx, only_cases=None):
         cases += [gen_conc(rng, race_ok is True, cas_ok) for _ in range(n_conc)]
         cases += sweep_cases()
         cases += upgrade_cases()
-    timed = [c for c in cases if c["mode"] in ("mem", "redis", "both")]
+    timed = [c for c in cases if c["mode"] in ("mem", "redis", "both", "iso")]
     conc = [c for c in cases if c["mode"] in ("conc", "sweep", "upgrade")]
     env = {"VERIF_C13_PAR": "64" if thorough else "40"}
     outs = vlib.run_harness(binary, timed, timeout=1500, env=env) if timed else []
@@ -616,6 +700,24 @@ def run(ctx, only_cases=None):
         judged.append((c, o))
     terms, tags = [], []
     for idx, (c, o) in enumerate(judged):
+        if c["mode"] == "iso":
+            if c["backend"] != "redis":
+                mops, mouts = expand_iso(c["ops"], o["ref"], o["ref"])
+                terms.append(case_value(1, flags, 10 ** 12, mops, mouts))       # reference map == Spec
+                tags.append(("ref", idx))
+                # the real answers at call time AND as the retained values look at the end of the history == Spec
+                # (mem: == MemImpl too); skipped when the Go predicate already failed on this case (that is the finding)
+                for view in (("obs", "obs_end") if o["prop_ok"] else ()):
+                    mops, mouts = expand_iso(c["ops"], o["obs"], o[view])
+                    if c["backend"] == "mem":
+                        terms.append(case_value(0, flags, 10 ** 12, mops, mouts))
+                        tags.append(("impl", idx))
+                    terms.append(case_value(1, flags, 10 ** 12, mops, mouts))
+                    tags.append(("impl", idx))
+            continue
+        if c["mode"] == "mem" and o["prop_ok"]:   # retained answers at the end of the history
+            terms.append(case_value(0, flags, c["tol"], c["ops"], o["obs_end"]))
+            tags.append(("impl", idx))
         if c["mode"] in ("mem", "both"):
             terms.append(case_value(0, flags, c["tol"], c["ops"], o["obs"]))
             tags.append(("impl", idx))
@@ -699,9 +801,12 @@ def run(ctx, only_cases=None):
             ctx.violation(o["prop_key"], o["prop_msg"] + "  [%s]" % json.dumps(c.get("threads") or c["ops"])[:600],
                           {"case": c, "observed": o.get("tobs") or o.get("obs")})
     # ---- (ii) model vs implementation / reference ----
-    for idx in sorted(bad_impl)[:3]:
+    # a case on which the isolation predicate already failed is reported by that predicate, not as a model mismatch
+    real_bad = [i for i in sorted(bad_impl) if judged[i][1]["prop_ok"]
+                or not str(judged[i][1].get("prop_key", "")).startswith(("iso:", "mem:returned-answer-changed"))]
+    for idx in real_bad[:3]:
         c, o = judged[idx]
-        if o["prop_ok"] or True:
+        if True:
             ctx.violation("model-mismatch", "Corr/C13.check (mode 0): the MemImpl model in the probed variant %s and the real "
                           "memory.Storage disagree; the theorems of Properties/C13.v no longer speak about this code"
                           % json.dumps(flags), {"case": c, "observed": o["obs"], "reference": o["ref"]},
